@@ -24,6 +24,11 @@ TAG_EDGE = re.compile(r"(%\}|\}\}|#\}|-->|\{%|\{\{|\{#|<!--)")
 WIDTHS = (0, 12, 20, 30, 40, 60, 88)
 
 SPECIAL = [
+    "The details are all given in section 2. of the appendix near the end of the book, as is 3. and 14. too, it is said.\n",
+    "Some text ~(bad)~ here and ~~(gone)~~ there with ~ok~ words to wrap around at the narrow widths, yes it is long.\n",
+    "Step 12\\. is not a list and 3\\. neither, with enough words around 7\\. to wrap at the narrow widths we use here.\n",
+    "- item text with a stray {% /note %} closing tag and more words here to wrap around the line for sure\n  continued text here\n",
+    "See the [foo bar] page and the [other\nthing] too, with enough words to wrap around at narrow widths.\n\n[foo bar]: http://x.y/z\n[other thing]: http://x.y/w\n",
     "A paragraph of plain words that is long enough to be wrapped at most of the widths used here, yes it is.\n",
     "- item text that is long enough to wrap at narrow widths for sure\n  continued here\n- second\n",
     "> quoted text that is long enough to wrap\n> and continues here for a while longer\n",
@@ -76,7 +81,8 @@ def cont_prefix(line: str) -> str:
 def relayout(rng, doc: str, tries: int = 12):
     """Random re-layout moves on the source text, each kept only if Marko reads the result as the same document.
     Moves next to a template tag / comment, inside code, in table rows, on hard breaks are never proposed."""
-    base = mdast.norm_doc(doc)
+    base = skeleton(mdast.norm_doc(doc))
+    sig = prose_sig(doc)
     cur = doc
     applied = []
     for _ in range(tries):
@@ -114,12 +120,55 @@ def relayout(rng, doc: str, tries: int = 12):
             continue
         nd = "\n".join(new)
         try:
-            if mdast.norm_doc(nd) == base and hard_breaks(nd) == hard_breaks(cur) and blanks(nd) == blanks(cur):
+            if same_reading(nd, base, sig) and hard_breaks(nd) == hard_breaks(cur) and blanks(nd) == blanks(cur):
                 cur = nd
                 applied.append(move)
         except Exception:
             pass
     return cur, applied
+
+
+def skeleton(t):
+    """block structure only (kinds, nesting, levels, list attributes, code and table content) with the prose of paragraphs and
+    headings left out: the moves exchange whitespace for whitespace inside a paragraph's text, which CommonMark's inline rules
+    do not distinguish; that the INLINE reading is the same for both layouts is part of what is checked, not assumed"""
+    if isinstance(t, tuple) and t and t[0] in ("para", "heading"):
+        return (t[0], t[1])
+    if isinstance(t, tuple) and t and t[0] == "table":
+        return (t[0], t[1], len(t[2]))
+    if isinstance(t, tuple):
+        return tuple(skeleton(x) for x in t)
+    return t
+
+
+def prose_sig(doc: str) -> list[str]:
+    """per paragraph/heading/table cell: its text with whitespace and the emphasis/strikethrough delimiter characters removed —
+    the same for two layouts whether or not the inline parser pairs the delimiters the same way"""
+    from marko import block, inline
+    out: list[str] = []
+
+    def text_of(e) -> str:
+        if isinstance(e, inline.LineBreak):
+            return ""
+        c = getattr(e, "children", None)
+        if isinstance(c, str):
+            return c
+        if isinstance(c, list):
+            return "".join(text_of(x) for x in c)
+        return ""
+
+    def walk(es):
+        for e in es:
+            if isinstance(e, (block.Paragraph, block.Heading, block.SetextHeading)):
+                out.append(re.sub(r"[\s~*_\\]+", "", text_of(e)))
+            elif isinstance(getattr(e, "children", None), list):
+                walk(e.children)
+    walk(mdast.parse(doc).children)
+    return out
+
+
+def same_reading(a_doc: str, sk, sig) -> bool:
+    return skeleton(mdast.norm_doc(a_doc)) == sk and prose_sig(a_doc) == sig
 
 
 def blanks(doc: str) -> int:
@@ -172,18 +221,75 @@ def relayout_oracle(ctx: Ctx, docs, label: str, k: int) -> None:
                          {"doc": doc, "relayout": rd, "opts": ostr(o)}, {"diff": diff(a, b)}, known=attribute_relayout(doc, rd, o))
 
 
+def single_moves(doc: str):
+    """every re-layout of doc that differs by ONE move: a line break at an interior space of a prose line, or that space doubled"""
+    lines = doc.split("\n")
+    mask = fence_mask(lines)
+    for i, l in enumerate(lines):
+        if mask[i] or not l.strip(" >\t") or "|" in l or "`" in l or l.startswith("    ") or re.match(r"^\s*\[[^\]]+\]:", l):
+            continue
+        body_start = len(l) - len(l.lstrip(" >"))
+        for m in re.finditer(r"(?<=\S) (?=\S)", l):
+            p = m.start()
+            if p <= body_start + 3 or TAG_EDGE.search(l[max(0, p - 4):p + 5]) or l[p - 1] == "\\":
+                continue
+            yield "\n".join(lines[:i] + [l[:p], cont_prefix(l) + l[p + 1:]] + lines[i + 1:])
+            yield "\n".join(lines[:i] + [l[:p] + "   " + l[p + 1:]] + lines[i + 1:])
+
+
+def sweep_oracle(ctx: Ctx, docs, label: str) -> None:
+    """exhaustive single-move re-layouts and every first width, for a few documents"""
+    from flowmark.formats.flowmark_markdown import ListSpacing
+    base = dict(cleanups=False, smartquotes=False, ellipses=False, list_spacing=ListSpacing.preserve)
+    for doc in docs:
+        try:
+            sk = skeleton(mdast.norm_doc(doc))
+            sig = prose_sig(doc)
+        except Exception:
+            continue
+        refs = {}
+        for W, sem in ((40, False), (88, True)):
+            refs[(W, sem)] = fmt(doc, dict(base, width=W, semantic=sem))
+        for rd in single_moves(doc):
+            try:
+                if not same_reading(rd, sk, sig) or hard_breaks(rd) != hard_breaks(doc):
+                    continue
+            except Exception:
+                continue
+            for (W, sem), ref in refs.items():
+                o = dict(base, width=W, semantic=sem)
+                out = fmt(rd, o)
+                ctx.count(["sweep", doc, rd, W, sem], nontrivial=True, sample=False)
+                ctx.bump(label + ":moves")
+                if out != ref:
+                    ctx.fail("RELAYOUT: a meaning-preserving re-layout of the source changes the formatted output",
+                             {"doc": doc, "relayout": rd, "opts": ostr(o)}, {"diff": diff(ref, out)}, known=attribute_relayout(doc, rd, o))
+                    break
+        for (W, sem), ref in refs.items():
+            o2 = dict(base, width=W, semantic=sem)
+            for w1 in range(8, 64):
+                for s1 in (False, True):
+                    o1 = dict(base, width=w1, semantic=s1)
+                    via = fmt(fmt(doc, o1), o2)
+                    ctx.count(["sweep-rewidth", doc, w1, s1, W, sem], nontrivial=True, sample=False)
+                    ctx.bump(label + ":widths")
+                    if via != ref:
+                        ctx.fail("REWIDTH: formatting with other width/mode first changes the result of formatting with the target options",
+                                 {"doc": doc, "o1": ostr(o1), "o2": ostr(o2)}, {"diff": diff(ref, via)}, known=attribute_rewidth(doc, o1, o2))
+                        break
+                else:
+                    continue
+                break
+
+
 def attribute_relayout(doc, rd, o):
-    from props import c01
-    nd, nrd = c01.neutralise(doc), c01.neutralise(rd)
-    try:
-        if (nd != doc or nrd != rd) and fmt(nd, o) == fmt(nrd, o):
-            return next((fid for fid, rx in c01.TRIGGERS if rx.search(doc) or rx.search(rd)), "C01-unescaped-line-head-hazards")
-    except Exception:
-        pass
+    """no known finding explains a difference between two layouts of one text (the hazard findings are about where the
+    formatter's own line breaks fall, which the theorems show to be the same for both): never attributed"""
     return None
 
 
-ESCAPABLE = re.compile(r"(?:(?<=\s)|^)(?:[-+*>#]|\d{1,9}[.)]|#{2,6})(?=\s|$)", re.M)
+# words whose introduced escape persists ("N." is not among them: a period escape is dropped again when re-flowed)
+ESCAPABLE = re.compile(r"(?:(?<=\s)|^)(?:[-+*>#]|\d{1,9}\)|#{2,6})(?=\s|$)", re.M)
 
 
 def rewidth_oracle(ctx: Ctx, docs, label: str, k: int) -> None:
@@ -258,12 +364,14 @@ def run(ctx: Ctx) -> None:
         from props import c06
         ctx.guard("tie fullwrap", c06.tie_fullwrap, ctx.scale(5000, 60000))
         ctx.guard("tie render", rendertie.tie_render, ctx.scale(120, 2000))
+        ctx.guard("tie layers", c06.tie_layers)
     rng = ctx.rng
     docs = [mdgen.gen_document(rng, quotes=(i % 3 == 0), ellipses=(i % 4 == 0), tags=(i % 4 == 1), html=(i % 5 == 0), bold_headings=True)
             for i in range(ctx.scale(300, 5000))]
     relayout_oracle(ctx, SPECIAL, "relayout:special", 6)
     relayout_oracle(ctx, docs, "relayout:generated", 2)
     rewidth_oracle(ctx, SPECIAL, "rewidth:special", 6)
+    sweep_oracle(ctx, SPECIAL + docs[:ctx.scale(6, 150)], "sweep")
     rewidth_oracle(ctx, docs, "rewidth:generated", 2)
     ctx.rule("re-layout: up to 12 random moves (multiply spaces, break at a space with the paragraph's continuation prefix, join two lines, "
              "re-indent a continuation line) per document, each validated by Marko's reading, × sampled option sets; "
